@@ -6,35 +6,35 @@ ids = [p['id'] for p in props]
 
 # id -> (level, engine, technique, level text, level note, design ref)
 CHECKS = {
- "C01": ("model_checking", "E-STATE", "explicit-state depth-bounded search (iterative deepening) over real Replica/InMemoryStorage objects against a harness chain server; chain-replay reference model on every state",
-         "Every history of create/update/delete/1MB-update/sync actions up to the depth bound, for 2, 3 and 4 replicas, is executed on the real code; on every reachable state the replica invariant, quiescence convergence and equality with the replay of the server chain are evaluated. Exhaustive within the stated alphabet and depth, which is what a universally quantified history property needs and no sampled test gives.",
+ "C01": ("model_checking", "E-STATE", "explicit-state depth-bounded search (iterative deepening) over real Replica/InMemoryStorage objects against a harness chain server; chain-replay reference model on every state; plus every interleaving of two replicas syncing at once (controlled scheduler)",
+         "Every history of create/update/delete/1MB-update/sync actions up to the depth bound, for 2, 3 and 4 replicas, is executed on the real code; on every reachable state the replica invariant, quiescence convergence and equality with the replay of the server chain are evaluated. Spaces also cover multi-operation commits, updates recorded with a wrong old value, and commits containing operations that are invalid where they stand (the recorded finding of known_findings.json is tolerated there, everything else in that space is checked). From every state of a small two-replica space both replicas also sync at once under every interleaving of their server requests. Exhaustive within the stated alphabet and depth, which is what a universally quantified history property needs and no sampled test gives.",
          "alphabet: 1-2 tasks, properties p/q/f, values a/b/absent, timestamps {1,2}s, one 1 000 001-byte value; depth 7-10; harness server = docs/src/sync-protocol.md", "5/C01"),
- "C03": ("model_checking", "E-STATE (families)", "exhaustive enumeration of concurrent operation sequences x every sync order on real replicas; documented-winner oracle + order-independence differential",
+ "C03": ("model_checking", "E-STATE (families)", "exhaustive enumeration of concurrent operation sequences x every sync order (and, for pairs, every interleaving of overlapping syncs) on real replicas; documented-winner oracle + order-independence differential",
          "All pairs and triples of valid local operation sequences (length <=2, thorough <=3) on a common base, each synced in every possible order, then quiesced; the converged state must be the documented winner and identical for all orders.",
          "alphabet of 11 operations over 3 tasks / 2 properties / timestamps {1,2}; where the prose is silent only convergence, order independence and no-invented-value are asserted", "5/C03"),
- "C02": ("model_checking", "E-SCHED on E-STATE states", "controlled scheduler over real Replica::sync futures: every interleaving of individual server requests (pairs exhaustively, triples preemption-bounded) from every distinct prior state of the C01 space",
-         "From every reachable prior state with >=2 replicas that have something to sync, every subset of >=2 replicas runs the real sync concurrently; each Server trait call parks at a gate and the explorer enumerates all release orders. Oracle: every sync Ok (never OutOfSync), replica invariant, quiescence convergence = chain replay. The rejection/retry path that no test executes is reached in thousands of distinct outcomes.",
+ "C02": ("model_checking", "E-SCHED on E-STATE states", "controlled scheduler over real Replica::sync futures: every interleaving of individual server requests (pairs exhaustively, triples preemption-bounded) from every distinct prior state of the C01 space; the same for two whole syncs racing through the real local / object-store / git backends",
+         "From every reachable prior state with >=2 replicas that have something to sync, every subset of >=2 replicas runs the real sync concurrently; each Server trait call parks at a gate and the explorer enumerates all release orders. Oracle: every sync Ok (never OutOfSync), replica invariant, quiescence convergence = chain replay. The rejection/retry path that no test executes is reached in thousands of distinct outcomes. State-key pruning is self-checked against the unpruned search. Two whole syncs also race through real backends (local SQLite server, object store; thorough: git with a remote), each replica on its own handle.",
          "one Server request is atomic at the harness server; prior depth 4-6, triples preemption bound 2 (thorough 3)", "5/C02"),
- "C05": ("model_checking", "E-DIFF + E-FAULT", "exhaustive batch enumeration executed in lock step on the real Replica (in-memory and SQLite) against a reference operation model, batch-vs-single differential, and an injected error at every storage call index",
+ "C05": ("model_checking", "E-DIFF + E-FAULT", "exhaustive batch enumeration executed in lock step on the real Replica (in-memory and SQLite) against a reference operation model, batch-vs-single differential, and an injected error at every storage call index, including one batch of 1200 (thorough 5000) operations",
          "Every batch up to length 4-5 over creates/updates/removals/deletes/undo points on two tasks, valid or not, from 20 prior states (unsynced and synced), is committed through Replica::commit_operations and compared with the documented one-at-a-time semantics, with one-at-a-time commits on a clone, with the expected operation log and with base+pending; for every storage call of the commit an injected failure must leave the observable state unchanged.",
          "SQLite with shorter batches (2-3) because each case re-opens a database; string domain tiny", "5/C05"),
- "C07": ("model_checking", "E-STATE", "explicit-state search over commit/undo/stale-undo/sync histories on real replicas (both storages) with a harness-kept image of the task set at every undo point",
+ "C07": ("model_checking", "E-STATE", "explicit-state search over commit/undo/stale-undo/sync histories on real replicas (both storages) with a harness-kept image of the task set at every undo point; one undo span of 1200 (thorough 6000) operations",
          "Every history up to depth 6-9 of single-change commits (with/without undo point, made with the real TaskData API), undo, stale undo, undo after sync and sync, from empty and populated replicas; after each undo the exact earlier task set, the exact remaining unsynchronized list and the result flag are asserted, and the next sync's versions must equal the documented conversion of what remains.",
          "lone-UndoPoint edge not asserted; one replica; SQLite depth 3-6", "5/C07"),
- "C15": ("model_checking", "E-STATE", "explicit-state search over status/purge/rebuild/undo/remote-sync histories on real replicas (both storages) with the statement's working-set obligations as oracle after every rebuild and commit",
+ "C15": ("model_checking", "E-STATE", "explicit-state search over status/purge/rebuild/undo/remote-sync histories on real replicas (both storages) with the statement's working-set obligations as oracle after every rebuild and commit (statuses incl. recurring and an unknown one; one working set of 300 / 1500 tasks)",
          "Every history up to depth 5-9 over 3-4 tasks; gaps and entries whose task vanished arise by construction (purge, remote completion/deletion through a real second replica and sync); after every rebuild the working set must contain exactly the pending/recurring tasks once each, slot 0 empty, numbers stable without renumbering, 1..n in order with renumbering.",
          "'after all numbers in use' is read as 'greater than every surviving number'", "5/C15"),
  "C18": ("exploration", "exhaustive sweep", "exhaustive enumeration of stored task maps (singles, pairs, reduced triples over edge keys x edge values) with every public read accessor called under panic capture on the real Replica/Task/TaskData/WorkingSet/DependencyMap",
          "Every (key,value) entry over 28 recognised keys/prefixes x 22 edge values, every pair with a status/wait/modified/start entry (thorough: all pairs) and all triples of a reduced alphabet are stored through real operations (singles also through a sync into a second replica) and then every public reader is invoked; any panic is a violation. This is an input sweep, not a state search, hence 'exploration'.",
          "string domain is the listed edge values; a second well-formed pending task depending on the subject is always present", "5/C18"),
- "C19": ("model_checking", "E-STATE + E-DIFF", "explicit-state search over editing sessions of real Task mutators in lock step with a task model (recorded operations incl. old values, held object, usage errors), storage comparison at every commit, recomputation of synthetic tags and dependency map after every store",
+ "C19": ("model_checking", "E-STATE + E-DIFF", "explicit-state search over editing sessions of real Task mutators in lock step with a task model (recorded operations incl. old values, held object, usage errors), storage comparison at every commit, recomputation of synthetic tags and dependency map after every store, read both through a fresh Replica and through the Replica that made the commit with a warm cache",
          "Every history up to depth 5-8 over open-session / mutator call / commit+reload / low-level TaskData edits of the task and of its dependency target / rebuild, from four stored prior states (absent, pending, completed+end+dependency, status/end disagreeing).",
          "clock values abstracted to NOW and window-checked; argument domains are single representative values per mutator", "5/C19"),
- "C20": ("exploration", "exhaustive sweep + sync orders", "exhaustive sweep of status x modification-time values through the real Replica::expire_tasks on both storages, then every sync order of an expiring replica against concurrently editing replicas",
+ "C20": ("exploration", "exhaustive sweep + sync orders", "exhaustive sweep of status x modification-time values through the real Replica::expire_tasks on both storages, then every sync order - and every interleaving of overlapping syncs - of an expiring replica against concurrently editing replicas",
          "All 8 status values x 20 modification-time values (boundaries of the 180-day threshold, missing, non-numeric, out of range in both directions, i64 extremes), alone and together, on in-memory and SQLite; then every expirable task x 4 concurrent edits x 2-3 replicas x every sync order; the purged task must be gone everywhere and nothing else touched.",
          "boundary values are >= 2 s (old side) / 60 s (new side) away from the threshold because the clock is real", "5/C20"),
- "C09": ("model_checking", "E-SCHED", "controlled scheduler over real CloudServer clients on one in-memory object store; every get/put/del/compare-and-swap and every list page is a scheduling point; stateless DFS with iterative preemption bounding; replay-divergence check on every prefix",
-         "2-4 clients run add/add-two/walk/add+snapshot programs against the real CloudServer; pairs are explored over all interleavings (quick: bound 3 for the long ones), triples and quadruples within a preemption bound; start layouts include leftover loser objects. The oracle uses only call results, the sequence of values 'latest' took and object names.",
+ "C09": ("model_checking", "E-SCHED", "controlled scheduler over real CloudServer clients on one in-memory object store; every get/put/del/compare-and-swap and every list page is a scheduling point; stateless DFS with iterative preemption bounding and self-checked state-key pruning; replay-divergence check on every prefix; scenarios on a brand-new store include the constructors' salt requests",
+         "2-4 clients run add/add-two/walk/add+snapshot programs against the real CloudServer; pairs are explored over all interleavings, triples within preemption bound 3 (thorough: all), the quadruple within bound 4; start layouts include leftover loser objects. The oracle uses only call results, the sequence of values 'latest' took and object names.",
          "in-memory Service obeys the Service trait contract; page sizes 1 and 2; cleanup disabled here (C10)", "5/C09"),
  "C10": ("model_checking", "E-SCHED + truncation", "controlled scheduler over cleanup vs add_version/add_snapshot/cleanup parties on every small object-store layout, preemption bound 2 (thorough 3), plus stopping the cleanup before any of its deletions",
          "Every chain length 0..3(4) x snapshot subset x age pattern x orphan kind is the start layout; the cleanup is entered through the real add_version->maybe_cleanup path (draw forced by hook) or explicitly; all interleavings within the bound at request/list-page granularity; consequence-form oracle evaluated by a fresh client.",
@@ -42,25 +42,25 @@ CHECKS = {
  "C04": ("fault_enumeration", "E-FAULT on E-STATE states", "call-indexed fault enumeration: one fault at every StorageTxn call index and every Server request of a real Replica::sync, from every distinct prior state of the C01 space, on in-memory and SQLite storage",
          "For every reachable prior state (2-3 replicas, incl. multi-version syncs) and every replica with something to sync, the sync is run once per (interruption point, fault kind): storage error, process stop at a storage call, server error before effect, effect then lost reply, stop before/after the server's effect. Afterwards every replica must satisfy the replica invariant, quiescence must succeed and converge to a fault-free result.",
          "one fault per sync; process stop = future dropped and the storage re-read (SQLite: closed and re-opened); SQLite on a subset of states", "5/C04"),
- "C06": ("fault_enumeration", "E-FAULT + E-KILL", "abandonment at every storage call index of real replica actions on SqliteStorage, and SIGKILL of a child process at the entry of every write-class syscall (strace fault injection), with a before/after-state oracle on the re-opened directory",
+ "C06": ("fault_enumeration", "E-FAULT + E-KILL", "abandonment at every storage call index of real replica actions on SqliteStorage, and SIGKILL of a child process at the entry of every write-class syscall (strace fault injection), with a before/after-state oracle on the directory re-opened read-only and then read-write",
          "Commit, undo, both rebuild modes and sync on two prior SQLite replicas: (1) every storage call fails or is the point where the future is dropped and the handle closed; (2) a child performing the action is killed at every pwrite64/write/fsync/fdatasync/ftruncate/unlink (quick: every 5th point), including the checkpoint on close after the action was acknowledged. The re-opened store must be exactly before or exactly after, and after whenever the action had returned.",
          "process-kill semantics (page cache survives); SQLite's own recovery trusted; quick tier subsamples the kill points", "5/C06"),
- "C08": ("model_checking", "E-DIFF over backends", "exhaustive enumeration of Server call sequences up to a depth on fresh instances of every backend, in lock step with the reference chain model",
+ "C08": ("model_checking", "E-DIFF over backends", "exhaustive enumeration of Server call sequences up to a depth on fresh instances of every backend, in lock step with the reference chain model; 2-3 object-store handles connecting to a brand-new store at once and two whole syncs racing through the local / object-store / git backends under the controlled scheduler; replica-level histories through every backend",
          "All sequences of d calls (add_version with nil/latest/stale/unknown parents and empty/all-byte-values/300 KB payloads, get_child_version, add_snapshot, get_snapshot, re-open) from 1-2 handles on: local; git local-only; git with a shared bare remote and two clones; the real CloudServer over the in-memory object store; the real HTTP client against a harness server written from docs/http.md.",
          "depth 4 (object store), 3 (local), 2 (HTTP, git) in the quick tier because every git call costs several processes and process creation does not scale in this sandbox; AWS/GCP adapters and a real sync server are not reachable offline", "5/C08"),
  "C11": ("fault_enumeration", "E-FAULT", "fault at every internal step of add_version / add_snapshot of the local (failpoints), object-store (every request) and git (every git command and file write) backends x {error, effect-then-error, process stop} x {restart, keep handle}, followed by continued syncs of the interrupted and other replicas",
          "After the single fault the interrupted replica syncs again, another replica commits and syncs, both sync again, a new replica syncs; all must succeed, all replicas must be identical and contain both changes, the chain served to a fresh handle must replay to that state, and a stale-parent probe must be rejected naming the latest.",
-         "git with a shared remote only in the thorough tier; a 'stop' at a failpoint unwinds the stack (equivalent to what SQLite/git see after a process exit at that point)", "5/C11"),
- "C13": ("exploration", "exhaustive sweep", "exhaustive tamper/mismatch/truncation sweep of sealed values against an independent implementation of the documented scheme (ring primitives, RFC-vector self-check), plus inspection and byte-flipping of what the three remote backends store",
+         "git with a shared remote: quick tier = the commit-to-push window and stops with staged files with a short continuation, thorough tier = every step; a 'stop' at a failpoint unwinds the stack (equivalent to what SQLite/git see after a process exit at that point)", "5/C11"),
+ "C13": ("exploration", "exhaustive sweep", "exhaustive tamper/mismatch/truncation sweep of sealed values against an independent implementation of the documented scheme (ring primitives, RFC-vector self-check), plus inspection of what the three remote backends store, byte-flipping of stored versions and byte-flipping + every truncation of the stored snapshot in its real stored form",
          "Every single-byte modification (all 255 values), every truncation, every secret/salt/version-id mismatch must be rejected; crate-sealed values must open under the documented derivation/AAD/envelope and model-sealed values must open in the crate; HTTP bodies, object-store objects and git files are opened with the documented salt and AAD and flipped byte-by-byte and read back through the Server.",
          "randomness quality of nonces is not decidable by enumeration (only distinctness over the run); 64 KB payload: all 255 values at both ends, two values elsewhere", "5/C13"),
- "C16": ("model_checking", "E-DIFF", "exhaustive enumeration of StorageTxn call scripts executed in lock step on InMemoryStorage and SqliteStorage with every return value and the full observation after every transaction end and after re-open compared; legacy-schema databases built by raw SQL; read-only handles",
+ "C16": ("model_checking", "E-DIFF", "exhaustive enumeration of StorageTxn call scripts executed in lock step on InMemoryStorage and SqliteStorage with every return value and the full observation after every transaction end and after re-open compared; breadth-first graph of states reachable by whole transactions; many-rows prefix; legacy-schema databases built by raw SQL; read-only handles",
          "Every script of d calls over 24-38 calls (commit, abandon, close+re-open included), also after a populated committed prefix; databases created under schemas 0.8, 0.9, (0,1), (0,2) with pre-loaded content are upgraded and compared; every mutator and commit on a read-only handle must fail and change nothing.",
          "documented contract restrictions (set_working_set_item only inside the working set, no call after commit); error messages not compared", "5/C16"),
- "C17": ("model_checking", "E-SCHED with lock probe", "controlled scheduler over real SqliteStorage handles (own actor threads) on one directory: every StorageTxn call is a scheduling point, a transaction may start only when a harness probe connection finds the write lock free; all interleavings executed; audit by a fresh handle",
+ "C17": ("model_checking", "E-SCHED with lock probe", "controlled scheduler over real SqliteStorage handles (own actor threads) on one directory: every StorageTxn call is a scheduling point, a transaction may start only when a harness probe connection finds the write lock free; all interleavings executed (programs incl. a whole sync, a 1200-operation commit, writing back a value read earlier; some handles in child processes); audit by a fresh handle",
          "2-6 handles run commit / read-modify-write / re-open / commit+undo / rebuild / read programs; because the code's real BEGIN IMMEDIATE locking decides which interleavings exist, a change that splits an action over two transactions or defers the lock widens the explored space automatically.",
          "OS-thread preemption inside the actor thread and inside SQLite is not enumerated; separate processes are represented by separate handles/threads", "5/C17"),
- "C12": ("model_checking", "E-STATE", "explicit-state search with snapshot urgency and avoid_snapshots as enumerated environment answers; independent snapshot decoder + chain-replay model; fresh replica from snapshot on every state",
+ "C12": ("model_checking", "E-STATE", "explicit-state search with snapshot urgency and avoid_snapshots as enumerated environment answers; independent snapshot decoder + chain-replay model; fresh replica from snapshot on every state; the snapshot oracle also at the end of every interleaving of racing syncs",
          "Every history (incl. multi-version syncs and odd Unicode strings) x every urgency answer; each uploaded snapshot is decoded independently and compared with the chain replay at exactly its version; on every state a new replica is started from the latest snapshot against a server that discarded the earlier versions.",
          "snapshot => urgency>=threshold is asserted (the statement's 'only when'); the converse is counted, not asserted; one 2000-task (thorough 20000) scenario stands for 'thousands of tasks'", "5/C12"),
  "C14": ("model_checking", "E-STATE + sweep", "explicit-state search observing every transmitted version through a strict documented-format parser; exhaustive grammar sweep of foreign documents fed to fresh replicas",
